@@ -14,6 +14,7 @@ import (
 	"fmt"
 	"go/ast"
 	"go/printer"
+	"go/scanner"
 	"go/token"
 	"go/types"
 	"os"
@@ -255,16 +256,53 @@ func rootIdent(e ast.Expr) *ast.Ident {
 // Rendering
 // ---------------------------------------------------------------------------
 
-var nlRun = regexp.MustCompile(`[ \t]*\n[ \t\n]*`)
-
-// text is the source text of a node as printed by go/printer, with every
-// line break (and the indentation around it) collapsed to one space.
+// text is the source text of a node as printed by go/printer, with every run
+// of white space (line breaks, indentation, alignment) outside string and
+// character literals collapsed to one space.
 func (w *world) text(n ast.Node) string {
 	var b bytes.Buffer
 	if err := printer.Fprint(&b, w.fset, n); err != nil {
 		w.failAt(n.Pos(), "cannot print node: %v", err)
 	}
-	return nlRun.ReplaceAllString(b.String(), " ")
+	src := b.Bytes()
+	// literal spans, found with go/scanner (a statement or expression is a
+	// valid token sequence)
+	type span struct{ lo, hi int }
+	var lits []span
+	fs := token.NewFileSet()
+	file := fs.AddFile("", fs.Base(), len(src))
+	var sc scanner.Scanner
+	sc.Init(file, src, nil, 0)
+	for {
+		pos, tok, lit := sc.Scan()
+		if tok == token.EOF {
+			break
+		}
+		if tok == token.STRING || tok == token.CHAR {
+			lo := file.Offset(pos)
+			lits = append(lits, span{lo, lo + len(lit)})
+		}
+	}
+	var out strings.Builder
+	space := false
+	li := 0
+	for i := 0; i < len(src); i++ {
+		for li < len(lits) && lits[li].hi <= i {
+			li++
+		}
+		c := src[i]
+		inLit := li < len(lits) && lits[li].lo <= i && i < lits[li].hi
+		if !inLit && (c == ' ' || c == '\t' || c == '\n' || c == '\r' || c == '\v' || c == '\f') {
+			space = true
+			continue
+		}
+		if space && out.Len() > 0 {
+			out.WriteByte(' ')
+		}
+		space = false
+		out.WriteByte(c)
+	}
+	return out.String()
 }
 
 // qual renders package art's own names unqualified, everything else by
